@@ -88,4 +88,14 @@ META = {
         note=BASE_NOTE + "Not covered: real-time behaviour of the 1 s keep-alive tickers and back-off sleeps (virtual time in the harness), fair schedules that do not contain two such rounds.",
         technique="Lean 4 invariant proof + termination-measure liveness proof over a fine-grained transition system + model/implementation correspondence",
     ),
+    "C15": dict(
+        text="Decision-logic theorems for EVERY allow-list (any list of strings), method name and request: a non-listed admin method is refused (unary and "
+             "streaming) and nothing behind the interceptor runs, RegisterNamespace/DeprecateNamespace are always refused under a policy, listed methods with "
+             "allowed namespaces are forwarded, and only the inbound server carries the policy (same construction for TCP and mux). Model tied to the real code "
+             "behaviourally: all 154 methods from the descriptors through running proxies over both transports, comparing the model's decision with the status "
+             "code, and checking directly that a refused call never reaches the recording local cluster.",
+        design_ref="DESIGN.md §5 C15",
+        note=BASE_NOTE + "Modelled not verified: gRPC interceptor chaining, string prefix/suffix functions (executable, compared per method).",
+        technique="Lean 4 decision-logic theorems + end-to-end model/implementation correspondence over TCP and mux",
+    ),
 }
